@@ -137,8 +137,10 @@ def run(eng, R):
         if cn is not None:
             csrc = _txt(cn)
             ok = "for _par_vals, _par_constraints in zip(values_and_constraints[::2], values_and_constraints[1::2]): for _par_constraint in _par_constraints: _cost += _par_constraint.cost(_par_vals)" in csrc \
-                and "for _i in _fit_index_to_data_index: for _node_name in ('parameter_values', 'parameter_constraints'):" in ssrc \
-                and "Alias(self._fits[_i]._nexus.get(_node_name), '%s%s' % (_node_name, _i))" in ssrc and "_member_constraint_names.append('%s%s' % (_node_name, _i))" in ssrc \
+                and "for _i in _fit_index_to_data_index:" in ssrc \
+                and all(any(("Alias(self._fits[_i]._nexus.get('%s'), %s)" % (nn, form)) in ssrc and ("_member_constraint_names.append(%s)" % form) in ssrc
+                            for form in ("'%%s%%s' %% ('%s', _i)" % nn, "'%s%%s' %% _i" % nn)) for nn in ("parameter_values", "parameter_constraints")) \
+                and ssrc.find("_member_constraint_names.append('%s%s' % ('parameter_values', _i))") < ssrc.find("_member_constraint_names.append('%s%s' % ('parameter_constraints', _i))") \
                 and "self._nexus.add_function(_member_constraint_cost, 'member_constraint_cost', _member_constraint_names)" in ssrc \
                 and ssrc.count("_cost_names.append('member_constraint_cost')") == 1
         R.ob("P-part", "_init_shared_error_nodes:member constraints", ok, (sh.file, sh.lineno),
